@@ -94,6 +94,7 @@ inductive ChainStep (s s' : State) : Prop where
   | deliver (wall : Nat) (tx : Tx) (hs : s' = (deliverTx Facts.anteOrder wall s tx).1)
   | check (tx : Tx) (hs : s' = (checkTx Facts.anteOrder s tx).1)
   | gov (wall : Nat) (m : Msg) (hs : s' = (govExec wall s m).1)
+  | govAll (wall : Nat) (msgs : List Msg) (hs : s' = (govExecAll wall s msgs).1)
 
 /-- states reachable from the scenario genesis `g` by any history of blocks and transactions -/
 inductive Reachable (g : GenCfg) : State → Prop where
